@@ -72,7 +72,7 @@ func LoadProgram(dir string, overlay map[string][]byte, patterns []string) (*Eng
 	e := &Engine{prog: prog, fset: prog.Fset, pkgs: map[string]*ssa.Package{}, bounds: map[string]int{},
 		globals: map[*ssa.Global]int{}, initPkgs: map[string]bool{}, covers: map[string]*Finding{},
 		funcsSeen: map[string]bool{}, stubsSeen: map[string]bool{}, assumes: map[string]bool{}, oblLabels: map[string]int{},
-		panicMode: "cut", unwind: 64, maxSteps: 2000000, solverTO: 30000, maxFind: 2, races: map[string]Access2{}}
+		panicMode: "cut", unwind: 64, maxSteps: 2000000, solverTO: 30000, maxFind: 6, races: map[string]Access2{}}
 	for _, p := range prog.AllPackages() {
 		e.pkgs[p.Pkg.Path()] = p
 	}
@@ -307,6 +307,10 @@ func (e *Engine) globalModel(st *State, g *ssa.Global) (Value, bool) {
 		return zero(g.Type().(*types.Pointer).Elem()), true
 	case "crypto/rand.Reader":
 		return IfaceV{t: e.namedType("io", "Reader"), v: OpaqueV{kind: "cryptoreader"}}, true
+	case "net/http.DefaultTransport":
+		// a *http.Transport with default (zero) settings; the code under test clones and adjusts it
+		tt := e.namedType("net/http", "Transport")
+		return IfaceV{t: types.NewPointer(tt), v: Ptr{obj: st.newObj(zero(tt))}}, true
 	case "io.EOF", "github.com/redis/go-redis/v9.Nil", "net/http.ErrUseLastResponse":
 		return e.newErrorOnce(name), true
 	}
